@@ -11,6 +11,7 @@ import (
 func init() {
 	vRegister("HarnessC17_required", HarnessC17_required)
 	vRegister("HarnessC17_layers", HarnessC17_layers)
+	vRegister("HarnessC17_reread", HarnessC17_reread)
 	vRegister("HarnessC17_listmarkers", HarnessC17_listmarkers)
 	vRegister("HarnessC17_nested", HarnessC17_nested)
 }
@@ -214,6 +215,50 @@ func HarnessC17_listmarkers() {
 	vAssert("C17.listmarkers.satisfied", vEq(docs[0].Data, want))
 	c17Check(docs[0].Data, ".listmarkers")
 	vCover("listmarkers.checked")
+}
+
+// HarnessC17_reread: bklr's output, written in any output format and read
+// back the way bklr reads its input, is exactly one document again, and
+// running bklr on it changes nothing - also when the output is EMPTY (no
+// marker left). Concrete trees: the stream codecs are the engine's native
+// boundary (real functions on concrete data).
+func HarnessC17_reread() {
+	leaf := func() any {
+		if ndChoice(2) == 0 {
+			return "$required"
+		}
+		return "s1"
+	}
+	root := map[string]any{}
+	if ndChoice(2) == 1 {
+		root["a"] = leaf()
+	}
+	switch ndChoice(3) {
+	case 1:
+		root["m"] = map[string]any{"b": leaf()}
+	case 2:
+		root["l"] = []any{leaf(), "x"}
+	}
+	name := []string{"yaml", "json", "toml", "json-pretty"}[ndChoice(4)]
+	got, err := required(vCopy(root))
+	vAssert("C17.reread.noerror", err == nil)
+	if name == "toml" && got == nil {
+		// TOML cannot write a document that is not a table
+		vCover("reread.checked")
+		return
+	}
+	f, ferr := bkl.GetFormat(name)
+	vAssert("C17.reread.format", ferr == nil)
+	text, merr := f.MarshalStream([]any{got})
+	vAssert("C17.reread.encode", merr == nil)
+	docs, uerr := f.UnmarshalStream(text)
+	vAssert("C17.reread.decode", uerr == nil)
+	vObserve("root", root)
+	vObserve("ndocs", len(docs))
+	vAssert("C17.reread.onedoc", len(docs) == 1)
+	again, err2 := required(docs[0])
+	vAssert("C17.reread.idempotent", err2 == nil && vEq(again, got))
+	vCover("reread.checked")
 }
 
 // HarnessC17_nested: a chain of four nested containers, each a map or a list
